@@ -1,0 +1,17 @@
+//go:build verif
+
+package msp
+
+// Decoder schema (property C12), instantiated mechanically by `govc gen-decoders`: a decoder returns nil only if
+// the validating constructor, applied to the decoded fields, returned a nil error. Constructors marked
+// "assumed / purefn" are only assumed to be deterministic functions of their arguments.
+
+//@ func (*MSP).UnmarshalCBOR
+//@   property C12
+//@   let dto = as(res(serde.UnmarshalCBOR(data), 0), *mspDTO)
+//@   ensures err == nil ==> res(NewMSP(dto.Matrix, dto.RowsToHolders), 1) == nil
+
+//@ func NewMSP
+//@   assumed
+//@   purefn
+
